@@ -634,15 +634,22 @@ def _structure_simplicity_level(cls):
     return simplicity
 
 
+def _enum_lookup(field):
+    # the table the document value is looked up in: by member value for serialization_by_value fields
+    if getattr(field, "serialization_by_value", False):
+        return getattr(field, "_enum_by_value")
+    return getattr(field, "_enum_class")
+
+
 @lru_cache(maxsize=128)
 def _get_enum_mapping(cls):
     without_optionals = {
-        k: getattr(v, "_enum_class")
+        k: _enum_lookup(v)
         for k, v in cls.get_all_fields_by_name().items()
         if isinstance(v, Enum) and getattr(v, "_is_enum", False)
     }
     optionals = {
-        k: getattr(_extract_non_nonefield_from_optional(v), "_enum_class")
+        k: _enum_lookup(_extract_non_nonefield_from_optional(v))
         for k, v in cls.get_all_fields_by_name().items()
         if isinstance(v, AnyOf)
         and _is_optional_anyof(v)
@@ -811,7 +818,8 @@ def deserialize_structure_internal(
             enum_vals = {
                 k: mapping[input_dict[k]]
                 for k, mapping in enum_mapping.items()
-                if input_dict.get(k)
+                if input_dict.get(k) is not None
+                and (input_dict[k] or isinstance(mapping, dict))
             }
             updated_input = {**input_dict, **enum_vals}
         else:
